@@ -1018,7 +1018,26 @@ def rule_estimator(cx, ptable):
                 cands.append((f, c[0], c[1]))
         if not cands:
             vague = [f for f in cev.facts if canon_cmp(f.cond, f.pol) is not None and ("t_last" in unp(f.cond) or "dt_min" in unp(f.cond))]
-            if vague:
+            # elapsed time computed into a local and the time stamp overwritten with the message time before the gate:
+            # the gate then measures the time since the previous MESSAGE, not since the previous correction
+            stale = None
+            for f in vague:
+                for nm in [x for x in ast.walk(f.cond) if isinstance(x, ast.Name)]:
+                    d = loc.defs.get(nm.id)
+                    if d is None:
+                        continue
+                    lf = linform(loc.inline(d.value, d.lineno))
+                    As = [a for a, c in lf.items() if a and a.startswith("self.") and "t_last" in a and c == -1.0]
+                    if lf.get(tkey) == 1.0 and len(As) == 1:
+                        for e in stamp_updates(cx, fn, As[0], tkey):
+                            if d.lineno < e.node.lineno <= f.cond.lineno and not any(mentions(x.cond, {("n", nm.id)}) or "dt_min" in unp(x.cond) for x in e.facts):
+                                stale = (f, nm.id, As[0], e)
+            if stale:
+                f, nm, A, e = stale
+                rep.fail(R_R, I + " is rate limited", "`%s` is the time since the previous %s MESSAGE: `%s` is executed before the gate on every message, so with a minimum period longer than the sensor period "
+                         "the gate never opens and the correction is never applied (and the limit is not on the time between applied corrections)" % (nm, sensor, unp(e.node)), where=cx.where(rel, e.node),
+                         fact={"guard": f.text(), "stamp": unp(e.node)})
+            elif vague:
                 rep.incomplete(R_R, I + " is rate limited", "cannot interpret the guard %s" % vague[0].text(), where=cx.where(rel, vague[0].stmt))
             else:
                 rep.fail(R_R, I + " is rate limited", "no condition of the form t - self.t_last_%s >= self.dt_min_%s.get() - eps holds at the correction call: it runs on every message" % (sensor, sensor),
